@@ -238,6 +238,18 @@ func (s *synth) value(t reflect.Type, name string, depth int) (reflect.Value, bo
 			} else {
 				v.SetUint(uint64(r.Intn(129)))
 			}
+		case strings.Contains(ln, "len") && r.Chance(85):
+			// lengths of IE contents are small in practice; the interesting values sit
+			// around allocator / encoding thresholds, not at 2^16-1
+			lens := []uint64{0, 1, 2, 3, 4, 5, 7, 8, 9, 15, 16, 17, 24, 31, 32, 33, 48, 63, 64, 65, 100, 127, 128, 129, 200, 255, 256, 257, 300, 1000}
+			x := lens[r.Intn(len(lens))]
+			if r.Chance(30) {
+				x = uint64(r.Intn(40))
+			}
+			if t.Bits() == 8 && x > 255 {
+				x = 255
+			}
+			v.SetUint(x)
 		case strings.HasPrefix(ln, "plmndigit") && r.Chance(85):
 			// TS 24.008 PLMN octets: two BCD digits; the high nibble of octet 2 may be the filler 0xF
 			hi := uint64(r.Intn(10))
@@ -480,7 +492,7 @@ func plmnBytes(r *Rng) []byte {
 
 // mobileIdentityBytes: the value part of a 5GS mobile identity (TS 24.501 9.11.3.4).
 func mobileIdentityBytes(r *Rng, want string) []byte {
-	kinds := []string{"suci", "suci", "nai", "guti", "imei", "imeisv", "tmsi", "none"}
+	kinds := []string{"suci", "suci", "suci", "suci", "nai", "guti", "guti", "imei", "imeisv", "tmsi", "none"}
 	k := kinds[r.Intn(len(kinds))]
 	switch {
 	case strings.Contains(want, "guti"):
